@@ -386,6 +386,13 @@ class OpenAPISchemaResolver(SchemaTypeResolver):
         if item_type.is_forward_ref and not item_type_str.startswith('"'):
             item_type_str = f'"{item_type_str}"'
 
+        # Nullable items: the list may contain None (otherwise null items are coerced, e.g. to the string "None")
+        if getattr(items_schema, "is_nullable", False) and not item_type_str.endswith("| None"):
+            if item_type_str.startswith('"') and item_type_str.endswith('"') and item_type_str.count('"') == 2:
+                item_type_str = f'"{item_type_str[1:-1]} | None"'
+            else:
+                item_type_str = f"{item_type_str} | None"
+
         return ResolvedType(python_type=f"List[{item_type_str}]", is_optional=not required)
 
     def _resolve_object(self, schema: IRSchema, context: TypeContext, required: bool) -> ResolvedType:
